@@ -40,6 +40,15 @@ def sign_rules(P, chk):
     if ok:
         f = {x["name"]: x["op"] for x in aggs[0][3]["fields"]}
         vl = f["value"]["place"]["l"] if f["value"].get("k") in ("copy", "move") else None
+        # `let signed = match ..; OwnedAmount { value: signed, .. }`: go back through plain copies to the match temporary
+        for _ in range(6):
+            ds_ = [d for d in b.defs().get(vl, []) if not d[3]["p"]] if vl is not None else []
+            if len(ds_) == 1 and ds_[0][0] == "assign" and ds_[0][4]["k"] == "use" and \
+                    ds_[0][4]["op"].get("k") in ("copy", "move") and not ds_[0][4]["op"]["place"]["p"] and \
+                    not (1 <= ds_[0][4]["op"]["place"]["l"] <= b.argc):
+                vl = ds_[0][4]["op"]["place"]["l"]
+            else:
+                break
         table = {}
         for dk, dbb, di, dpl, pl in b.defs().get(vl, []) if vl is not None else []:
             lab = None
@@ -102,7 +111,24 @@ def date_rules(P, chk):
     uo = [(bb, t) for bb, t in g.calls() if short(callee_def(t)) in ("unwrap_or", "unwrap_or_else")]
     ok = len(uo) == 1
     detail = "expected value_date.unwrap_or(booking_date)"
-    if ok:
+    if not uo:
+        # match &self.value_date { Some(v) => v.as_naive_date(), None => self.booking_date.as_naive_date() }
+        conv = [(bb, t) for bb, t in g.calls() if short(callee_def(t)) == "as_naive_date" and not t["dest"]["p"]]
+        seen_ = set()
+        ok = bool(conv)
+        for bb, t in conv:
+            gs = [labs for roots, labs in q.variant_guards(g, bb) if any(q.is_param(r, "self", ("value_date",)) for r in roots)]
+            rs = prov(g, t["args"][0])
+            if gs == [("Some",)] and rs and all(q.is_param(r, "self") and r.fields[:1] == ("value_date",) for r in rs):
+                seen_.add("Some")
+            elif gs == [("None",)] and rs and all(q.is_param(r, "self", ("booking_date",)) for r in rs):
+                seen_.add("None")
+            else:
+                ok = False
+        rs0 = prov(g, {"l": 0, "p": []})
+        ok = ok and seen_ == {"Some", "None"} and bool(rs0) and all(r.kind == "call" and r.site in [x[0] for x in conv] for r in rs0)
+        detail = "arms seen: %s" % sorted(seen_)
+    elif ok:
         t = uo[0][1]
         r0 = q.chains(g, t["args"][0])
         r1 = q.chains(g, t["args"][1])
@@ -187,7 +213,11 @@ def balance_rules(P, chk):
     if ok:
         obb, ot = opening
         recv = q.named_local(b, ot["args"][0])
-        first_push = [pb for pb, pt in pushes if q.named_local(b, pt["args"][1]) == recv]
+        new_sites = [bb for bb, t in b.calls() if callee_def(t) == SE + "::Txn::new" and b.term(bb)["dest"]["l"] == recv]
+        # the pushed value is that transaction: the same local, or the value built by that Txn::new handed on through
+        # an Option / a helper's return value
+        first_push = [pb for pb, pt in pushes if q.named_local(b, pt["args"][1]) == recv or
+                      (new_sites and q.all_roots(b, pt["args"][1], lambda r: r.kind == "call" and r.site in new_sites))]
         zero = False
         for bb, t in b.calls():
             if callee_def(t) == SE + "::Txn::new" and b.term(bb)["dest"]["l"] == recv:
